@@ -390,3 +390,26 @@ mod tests {
         }
     }
 }
+
+/// Verification facades for the otherwise private render helpers.
+#[cfg(feature = "verif")]
+pub mod verif_facade {
+    use super::*;
+    pub fn task_message(message: &str, seconds: usize, max_cols: usize) -> String {
+        super::task_message(message, seconds, max_cols)
+    }
+    pub fn truncate(s: &str, max: usize) -> &str {
+        super::truncate(s, max)
+    }
+    /// counts: want, ready, queued, running, done, failed.
+    pub fn progress_bar(counts: [usize; 6], bar_size: usize) -> String {
+        let mut c = StateCounts::default();
+        c.add(BuildState::Want, counts[0] as isize);
+        c.add(BuildState::Ready, counts[1] as isize);
+        c.add(BuildState::Queued, counts[2] as isize);
+        c.add(BuildState::Running, counts[3] as isize);
+        c.add(BuildState::Done, counts[4] as isize);
+        c.add(BuildState::Failed, counts[5] as isize);
+        super::progress_bar(&c, bar_size)
+    }
+}
